@@ -6,9 +6,11 @@ C03 — Frustum clipping returns exactly the inside part, attributes intact.
                                             clipped polygon is weakly convex, counter-clockwise
       `clip_output_subset_visible`          every point of every output triangle is in the visible part
       `clip_nonoverlap`                     two different output triangles share no interior point
-      `clip_covers`                         no inside point is lost — when the visible part has non-empty interior;
+      `clip_covers_hull` (`clip_covers`)    no inside point is lost: every visible point is a convex combination of the
+                                            corners of a NON-DEGENERATE output triangle — when the visible part has non-empty interior;
                                             `CoverEx` proves the statement FALSE without that hypothesis (a triangle
                                             touching the frustum from outside at one vertex yields nothing)
 -/
 import Retro.Props.C03.Base
 import Retro.Props.C03.CoverEx
+import Retro.Props.C03.CoverStrong
